@@ -2,6 +2,7 @@
 mod alloc;
 mod anyshape;
 mod c01;
+mod c03;
 mod c05;
 mod c06;
 mod c13;
@@ -25,6 +26,7 @@ fn main() {
         "c01" => c01::run(&args[2..]),
         "c06" => c06::run(&args[2..]),
         "c05" => c05::run(&args[2..]),
+        "c03" => c03::run(&args[2..]),
         "c13" => c13::run(&args[2..]),
         other => {
             eprintln!("unknown property {other}");
